@@ -4,6 +4,7 @@ import (
 	"bytes"
 	"encoding/json"
 	"fmt"
+	"os"
 	"os/exec"
 	"regexp"
 	"runtime/debug"
@@ -822,12 +823,38 @@ func runC08(tier, replay string) int {
 	env := []string{keyPoolEnv + "=" + poolFile}
 
 	if replay != "" {
+		// the three parts have their own case types: tell them apart by their members
+		var probe struct {
+			Case struct {
+				Steps  []json.RawMessage `json:"steps"`
+				Rounds []json.RawMessage `json:"rounds"`
+			} `json:"case"`
+		}
+		if data, err := os.ReadFile(replay); err == nil {
+			_ = json.Unmarshal(data, &probe)
+		}
+		switch {
+		case probe.Case.Steps != nil:
+			return replayOne[TLCase, TLResult](replay, "sigtl", env)
+		case probe.Case.Rounds != nil:
+			return replayOne[CCCase, CCResult](replay, "sigcache", env)
+		}
 		return replayOne[SigCase, SigResult](replay, "sig", env)
 	}
 	cases := c08Cases(r)
 	tStart := time.Now()
 	outs := runBatches[SigCase, SigResult]("", "sig", cases, 8, 30*time.Second, env)
 	r.Extra("first_pass_s", time.Since(tStart).Seconds())
+	// second part: identity histories made in several steps (c08_timeline.go)
+	tStart = time.Now()
+	tlc := tlCases(r)
+	collectTimeline(r, tlc, runBatches[TLCase, TLResult]("", "sigtl", tlc, 2, 60*time.Second, env))
+	r.Extra("timeline_pass_s", time.Since(tStart).Seconds())
+	// third part: verification through a long-lived cache across pulled identity updates (c08_cache.go)
+	tStart = time.Now()
+	ccs := ccCases(r)
+	collectCacheSessions(r, ccs, runBatches[CCCase, CCResult]("", "sigcache", ccs, 1, 90*time.Second, env))
+	r.Extra("cache_pass_s", time.Since(tStart).Seconds())
 	var second []SigCase
 	perSite := map[string]int{}
 	for i, oc := range outs {
@@ -919,8 +946,12 @@ func runC08(tier, replay string) int {
 	}
 	r.Extra("identity_histories(time:keys)", hs)
 	r.Extra("exhaustive", false)
-	return r.Finish("pairs (identity version history with 1..4 versions adding/removing/rotating 0..2 keys at steered bugs-edit times) x (commit at every T from first-1 to last+1) x (crafted: unsigned, right key, second right key, removed key, not-yet-valid key, stranger's key, altered tree, altered timestamp; git-bug itself: private key available / not available) x (create, append, empty merge commit) x (reader with public keys only / reader resolving the author to an in-memory identity holding private keys); expectation from the independent model over the raw version blobs and the raw commit object; observed = bug.Read error and bug.MergeAll status on the second replica; non-trivial = every conclusive pair; distinct = (versions, keys in force, relation of T to the version times, writer, signing mode, kind, reader, expectation)",
+	return r.Finish("pairs (identity version history with 1..4 versions adding/removing/rotating 0..2 keys at steered bugs-edit times) x (commit at every T from first-1 to last+1) x (crafted: unsigned, right key, second right key, removed key, not-yet-valid key, stranger's key, altered tree, altered timestamp; git-bug itself: private key available / not available) x (create, append, empty merge commit) x (reader with public keys only / reader resolving the author to an in-memory identity holding private keys); expectation from the independent model over the raw version blobs and the raw commit object; observed = bug.Read error and bug.MergeAll status on the second replica; non-trivial = every conclusive pair; distinct = (versions, keys in force, relation of T to the version times, writer, signing mode, kind, reader, expectation)"+
+		" || timeline scripts: the keyed author edits its identity in several steps (Mutate of keys / of the profile, SetMetadata, Commit now or later, first version still pending) while a keyless author's commits or witnessed times move the edit clock and the author itself writes signed commits in between; the harness records (clock value at the Mutate that changed the key set, new key set); crafted commits (unsigned, every key of the history, a stranger's key) at c-1, c, c+1 of every change and the author's own commits are read and merged on a second replica; expected = key model over that timeline, no expectation where reading a change at clock value c as 'from c' or 'from c+1' gives different verdicts; also ValidKeysAtTime of the stored identity against the timeline; one case per script, distinct = sequence of step kinds"+
+		" || long-lived cache sessions: a victim keeps one RepoCache open, pulls and loads a bug of the keyed author, then the author changes keys in 1..3 rounds on another replica and pushes the new identity version with commits in its name at c-1, c, c+1 signed by old/new/stranger's/no key, a commit written by git-bug with the new key and a commit appended to a bug the victim holds; the victim pulls with Pull or Fetch+MergeAll, everything at once, identity first or bugs first; every remote bug differing from the local one is judged with the key model over the identity versions in the victim's repository at that moment; observed = merge status and local ref movement through the long-lived cache, the same pulls on a shadow replica with the plain entity functions, Resolve through the long-lived cache, and a freshly opened cache over the victim's repository at the end; one case per session, distinct = (initial keys, preload, per round: kind of key change, delivery, carrier signing)",
 		40, []string{
+			"timeline scripts: a key set given to Identity.Mutate while the bugs-edit clock stands at c is taken to be introduced at c: it must not apply to commits with a time < c and must apply to commits with a time > c (until the next change); commits at exactly c are not judged when the two readings differ (on this tree a version records clock.Time(), the last used time, so a key change made right after the author's own commit puts that commit under the new key set; counted under timeline/commit_at_the_clock_value_of_a_key_change)",
+			"long-lived cache sessions: the author always lets a keyless author's commit advance the clock before a key change, so commits accepted earlier stay valid; a bug already loaded in the cache is not expected to be re-verified",
 			"keys in force and signature validity are computed from gitraw's version blobs and `git cat-file commit` output; only the OpenPGP verification primitive is shared with git-bug",
 			"a signed commit by an author with no key in force is expected to be accepted (the statement only speaks of unsigned ones); a refusal there has its own key",
 			"private keys never reach the reading replica's keyring; the in-memory reader variant mirrors git-bug's own unit test set-up",
